@@ -100,8 +100,11 @@ type OS struct {
 	CrashAfter int
 	// Now supplies mtimes for Stat results when non-nil (simulated clock stamps).
 	Now       func() time.Time
-	mtimes    map[string]time.Time
+	mtimes    map[int]time.Time // by inode id: a descriptor keeps seeing its own file's mtime
 	lastStamp time.Time
+	// LockWait, if set, is called when a blocking flock request would block; it returns true if
+	// it parked the caller at a scheduling point (the request is retried afterwards).
+	LockWait func() bool
 	// AfterEvent, if set, is called (without o.mu held) after every recorded mutating event:
 	// the place for invariants that must hold "at every moment".
 	AfterEvent func(e *Event)
@@ -127,7 +130,7 @@ func New(root string) (*OS, error) {
 	if err := os.DsimRealMkdir(root, 0o755); err != nil && !errors.Is(err, fs.ErrExist) {
 		return nil, err
 	}
-	return &OS{Root: root, files: map[*os.File]*openFile{}, inoOf: map[string]int{}, dead: map[int]bool{}, mtimes: map[string]time.Time{}}, nil
+	return &OS{Root: root, files: map[*os.File]*openFile{}, inoOf: map[string]int{}, dead: map[int]bool{}, mtimes: map[int]time.Time{}}, nil
 }
 
 // Install makes o the simulated OS for the process. Only one OS is active at a time.
@@ -140,10 +143,28 @@ func (o *OS) Install() {
 		FStat: o.fstat, ReadDir: o.readDir, Chtimes: nil, NextRandom: o.nextRandom,
 		RootOpenFile: o.rootOpenFile,
 	}
+	syscall.DsimFlock = o.flock
+}
+
+// flock turns a blocking flock request into a retry loop around scheduling points, so that no
+// goroutine of the bubble ever sits in the kernel waiting for a lock another task holds.
+func (o *OS) flock(fd int, how int, real func(int, int) error) error {
+	if how&(syscall.LOCK_NB|syscall.LOCK_UN) != 0 {
+		return real(fd, how)
+	}
+	for {
+		err := real(fd, how|syscall.LOCK_NB)
+		if err != syscall.EWOULDBLOCK {
+			return err
+		}
+		if lw := o.LockWait; lw == nil || !lw() {
+			time.Sleep(time.Millisecond)
+		}
+	}
 }
 
 // Uninstall removes the hooks.
-func Uninstall() { os.Sim = nil; active = nil }
+func Uninstall() { os.Sim = nil; syscall.DsimFlock = nil; active = nil }
 
 // SetActor names the actor ("process") on whose behalf subsequent operations run.
 func (o *OS) SetActor(a int) { o.mu.Lock(); o.cur = a; o.mu.Unlock() }
@@ -280,11 +301,8 @@ func (o *OS) record(e Event) {
 				st = o.lastStamp.Add(time.Nanosecond)
 			}
 			o.lastStamp = st
-			o.mtimes[o.pathOfIno(e)] = st
-		case EvRename:
-			if t, ok := o.mtimes[e.Path]; ok {
-				o.mtimes[e.Path2] = t
-				delete(o.mtimes, e.Path)
+			if e.Ino != 0 {
+				o.mtimes[e.Ino] = st
 			}
 		}
 	}
@@ -591,7 +609,6 @@ func (o *OS) remove(name string) error {
 	}
 	o.mu.Lock()
 	delete(o.inoOf, rp)
-	delete(o.mtimes, rp)
 	o.mu.Unlock()
 	o.record(Event{Kind: EvRemove, Path: rp})
 	return nil
@@ -671,7 +688,21 @@ func (o *OS) withMtime(rp string, fi os.FileInfo) os.FileInfo {
 		return fi
 	}
 	o.mu.Lock()
-	t, ok := o.mtimes[rp]
+	ino := o.inoOf[rp]
+	t, ok := o.mtimes[ino]
+	o.mu.Unlock()
+	if ok && ino != 0 {
+		return os.DsimWithModTime(fi, t)
+	}
+	return fi
+}
+
+func (o *OS) withMtimeIno(ino int, fi os.FileInfo) os.FileInfo {
+	if o.Now == nil || fi == nil || ino == 0 {
+		return fi
+	}
+	o.mu.Lock()
+	t, ok := o.mtimes[ino]
 	o.mu.Unlock()
 	if ok {
 		return os.DsimWithModTime(fi, t)
@@ -712,7 +743,7 @@ func (o *OS) fstat(f *os.File) (os.FileInfo, error) {
 		return nil, pathErr("stat", f.Name(), err)
 	}
 	fi, err := os.DsimRealFStat(f)
-	return o.withMtime(of.path, fi), err
+	return o.withMtimeIno(of.ino, fi), err
 }
 
 func (o *OS) readDir(name string) ([]os.DirEntry, error) {
